@@ -149,7 +149,10 @@ class PlaceholderTemplater(RawTemplater):
         last_pos_raw, last_pos_templated = 0, 0
         out_str = ""
 
-        regex = context["__bind_param_regex"]
+        # NOTE: Take the regex *out* of the context. It's an internal entry and
+        # must not be found when looking up the value of a parameter which
+        # happens to have the same name.
+        regex = context.pop("__bind_param_regex")
         # when the param has no name, use a 1-based index
         param_counter = 1
         for found_param in regex.finditer(in_str):
